@@ -179,6 +179,9 @@ D(IQ, [site(M + IQ + "._datain_bits", ABS(0)),
        site(M + IQ + "._referrals_bits", ABS(0), _vpd(0xB3)),
        site(M + IQ + "._extended_bits", ABS(0), _vpd(0x86)),
        site(M + IQ + "._ata_information_bits", ABS(0), _vpd(0x89)),
+       site(M + IQ + "._ata_signature_bits", ABS(36), _vpd(0x89)),
+       site(M + IQ + "._ata_identify_bits", ABS(60), _vpd(0x89)),
+       site(M + IQ + "._ata_identify_gen_conf_bits", ABS(60), _vpd(0x89)),
        window(1, ABS(4), ABS(0), E(4, F(ABS(2), 2))),              # Device Identification: descriptors from byte 4 to page length + 4
        stride(1, E(4, F(LOOP(1, 3), 1))),
        site(M + IQ + "._designator_bits", LOOP(1, 0), _vpd(0x83)),
